@@ -1269,11 +1269,14 @@ def parse_docstring(docstring: str, errors: List[ParseError]) -> ParsedDocstring
     tree_children = cast(List[Element], tree.children)
 
     fields = []
-    if tree_children and tree_children[-1].tag == 'fieldlist':
-        # Take field list out of the document tree.
+    # Take the fields out of the document tree: fields that are not indented 
+    # alike end up in several field lists, all of them at the end of the document.
+    field_children: List[Element] = []
+    while tree_children and tree_children[-1].tag == 'fieldlist':
         field_list = tree_children.pop()
-        field_children = cast(List[Element], field_list.children)
+        field_children[0:0] = cast(List[Element], field_list.children)
 
+    if field_children:
         for field in field_children:
             # Get the tag
             tag = cast(str, cast(Element, field.children.pop(0)).children[0]).lower()
